@@ -377,14 +377,15 @@ def _names(unit, ctx):
                     px = G.PortX("eq", (nr,))
                     acex = G.AceX("permit", proto, net, px if pos != "dst" else G.PortX(),
                                   anyaddr, px if pos != "src" else G.PortX(), flags, logs, 0)
-                    text = (f"permit {pname} {net.spellings(plat)[0][0]} "
-                            + (f"eq {name} " if pos != "dst" else "") + "any "
-                            + (f"eq {name} " if pos != "src" else "")
-                            + " ".join(flags + logs)).strip()
-                    ctx.nt((unit["cfg"], text))
-                    ctx.out("named_port")
                     expr = tuple(("eq", [nr]) if p.op else None for p in (acex.sport, acex.dport))
-                    check_text(text, cfg, acex.rule(), ctx, expr)
+                    for pspell in (pname, str(proto)):  # protocol as keyword and as number
+                        text = (f"permit {pspell} {net.spellings(plat)[0][0]} "
+                                + (f"eq {name} " if pos != "dst" else "") + "any "
+                                + (f"eq {name} " if pos != "src" else "")
+                                + " ".join(flags + logs)).strip()
+                        ctx.nt((unit["cfg"], text))
+                        ctx.out("named_port")
+                        check_text(text, cfg, acex.rule(), ctx, expr)
     ctx.sample("names", dict(cfg=cfg))
 
 
